@@ -214,6 +214,8 @@ func c13Families(tier string) []engine.Family {
 	}
 	return append(fams, []engine.Family{
 		c13CustomFamily(tier),
+		c13PrimitiveCross(tier),
+		c13ProcessingCross(tier),
 		{Name: "generic-trees", Arity: []int{nLeaves + 4, 2}, Body: func(x *engine.Exec) {
 			t := gen.Tree(x, &gen.TreeOpts{MaxNodes: maxNodes, Leaves: leaves[:nLeaves], Keys: []string{"a", "b"}})
 			generic(x, t.Events(nil), "generic:tree")
@@ -288,6 +290,38 @@ func c13Families(tier string) []engine.Family {
 				evs = []model.Event{model.ObjStart(1, 0), model.Key("a"), ev, model.ObjEnd()}
 			}
 			typed(x, "numeric-cross", target, evs, class, "numeric_compared")
+		}},
+		{Name: "skip-kinds", Arity: []int{len(leaves)}, Body: func(x *engine.Exec) {
+			// an unknown member whose value holds every scalar event kind: bare, inside an array, inside an object, nested in
+			// both - between two known members that must still be assigned
+			ev := leaves[x.Choose(len(leaves))]
+			if x.Bool() && (ev.K == model.KString) {
+				ev.Ref = true
+			}
+			hint := structform.AnyType
+			if x.Bool() {
+				hint = hintOf(ev.K)
+			}
+			var skipped []model.Event
+			switch x.Choose(5) {
+			case 0:
+				skipped = []model.Event{ev}
+			case 1:
+				skipped = []model.Event{model.ArrStart(2, hint), ev, ev, model.ArrEnd()}
+			case 2:
+				skipped = []model.Event{model.ObjStart(-1, hint), model.KeyRef("q"), ev, model.Key("r"), ev, model.ObjEnd()}
+			case 3:
+				skipped = []model.Event{model.ArrStart(-1, 0), ev, model.ObjStart(1, hint), model.Key("q"), ev, model.ObjEnd(), ev, model.ArrEnd()}
+			default:
+				skipped = []model.Event{model.ObjStart(2, 0), model.Key("q"), model.ArrStart(1, hint), ev, model.ArrEnd(), model.KeyRef("a"), ev, model.ObjEnd()}
+			}
+			st := reflect.StructOf([]reflect.StructField{{Name: "A", Type: reflect.TypeOf(0), Tag: `struct:"a"`}, {Name: "B", Type: reflect.TypeOf(""), Tag: `struct:"b"`}, {Name: "Z", Type: reflect.TypeOf(0), Tag: `struct:"zzz"`}})
+			target := reflect.New(st)
+			target.Elem().Field(2).SetInt(77)
+			evs := append([]model.Event{model.ObjStart(-1, 0), model.Key("a"), model.SInt(model.KInt8, 1), model.KeyRef("unknown")}, skipped...)
+			evs = append(evs, model.KeyRef("b"), model.StrRef("after"), model.ObjEnd())
+			x.Count("unknown_members_skipped", 1)
+			typed(x, "skip-kinds", target, evs, "skip:"+leafClass(ev), "struct_compared")
 		}},
 		{Name: "struct-members", Arity: []int{len(members) + 1, len(members) + 1}, Body: func(x *engine.Exec) {
 			// choose up to 3 distinct members in order
